@@ -55,20 +55,20 @@ fn main() {
         "C02" => c02::gen(seed, thorough),
         "C03" => c03::gen(seed, thorough),
         "C04" => { c04::gen(seed, thorough); engine::gen_tie_e2e(seed, "C04", thorough) }
-        "C05" => { c05::gen_c05(seed, thorough); engine::gen_tie(seed, "C05", thorough) }
+        "C05" => { c05::gen_c05(seed, thorough); engine::gen_tie(seed, "C05", thorough); engine::gen_plumb(seed, "C05", thorough) }
         "VOC0" => voc::gen_raw(seed, thorough, false),
         "VOC1" => voc::gen_raw(seed, thorough, true),
-        "C06" => { voc::gen_c06(seed, thorough); engine::gen_tie(seed, "C06", thorough) }
-        "C07" => { voc::gen_c07(seed, thorough); engine::gen_tie(seed, "C07", thorough) }
-        "C11" => { engine::gen_c11(seed, thorough); engine::gen_tie(seed, "C11", thorough) }
-        "C12" => { engine::gen_c12(seed, thorough); engine::gen_tie(seed, "C12", thorough) }
-        "C13" => { voc::gen_c13(seed, thorough); engine::gen_tie(seed, "C13", thorough) }
-        "C14" => { voc::gen_c14(seed, thorough); engine::gen_tie(seed, "C14", thorough) }
-        "C08" => { c08::gen_c08(seed, thorough); engine::gen_tie(seed, "C08", thorough) }
-        "C09" => { c08::gen_c09(seed, thorough); engine::gen_tie(seed, "C09", thorough) }
+        "C06" => { voc::gen_c06(seed, thorough); engine::gen_tie(seed, "C06", thorough); engine::gen_plumb(seed, "C06", thorough) }
+        "C07" => { voc::gen_c07(seed, thorough); engine::gen_tie(seed, "C07", thorough); engine::gen_plumb(seed, "C07", thorough) }
+        "C11" => { engine::gen_c11(seed, thorough); engine::gen_tie(seed, "C11", thorough); engine::gen_plumb(seed, "C11", thorough) }
+        "C12" => { engine::gen_c12(seed, thorough); engine::gen_tie(seed, "C12", thorough); engine::gen_plumb(seed, "C12", thorough) }
+        "C13" => { voc::gen_c13(seed, thorough); engine::gen_tie(seed, "C13", thorough); engine::gen_plumb(seed, "C13", thorough) }
+        "C14" => { voc::gen_c14(seed, thorough); engine::gen_tie(seed, "C14", thorough); engine::gen_plumb(seed, "C14", thorough) }
+        "C08" => { c08::gen_c08(seed, thorough); engine::gen_tie(seed, "C08", thorough); engine::gen_plumb(seed, "C08", thorough) }
+        "C09" => { c08::gen_c09(seed, thorough); engine::gen_tie(seed, "C09", thorough); engine::gen_plumb(seed, "C09", thorough) }
         "C10" => { c19::gen_c10(seed, thorough); engine::gen_tie_e2e(seed, "C10", thorough) }
-        "C15" => { engine::gen_c15(seed, thorough); engine::gen_tie(seed, "C15", thorough) }
-        "C16" => { engine::gen_c16(seed, thorough); engine::gen_tie(seed, "C16", thorough) }
+        "C15" => { engine::gen_c15(seed, thorough); engine::gen_tie(seed, "C15", thorough); engine::gen_plumb(seed, "C15", thorough) }
+        "C16" => { engine::gen_c16(seed, thorough); engine::gen_tie(seed, "C16", thorough); engine::gen_plumb(seed, "C16", thorough) }
         "C17" => c17::gen(seed, thorough),
         "C18" => c18::gen(seed, thorough),
         "C19" => c19::gen_c19(seed, thorough),
